@@ -162,8 +162,45 @@ def mutants(args):
     return rc
 
 
+def model_selftest(args):
+    """The reference model against the real library on the demo configuration: typing of generated strings
+    (concrete, search, junk) and template-formatted paths. A disagreement here means the ORACLE is suspect."""
+    import random
+    from .model import Model
+    from . import x as X
+    pool = O.Pool(args.repo, 1, hash_seeds=[0])
+    try:
+        spec = pool.call({"cmd": "spec"}, 0)["spec"]
+        m = Model(spec)
+        from .profiles.base import Vocab, gen_sid
+        rng = random.Random(7)
+        vocab = Vocab(m)
+        strings = set()
+        for t in vocab.usable_types():
+            for _ in range(40):
+                s = gen_sid(rng, m, vocab, t, {}, reuse=0)
+                if s:
+                    strings.add(s)
+                    segs = s.split("/")
+                    strings.add("/".join(segs[:-1] + ["*"]))
+                    strings.add("/".join(segs[:-1] + ["zzz"]))
+                    strings.add("/".join(segs + ["extra"]))
+                    strings.add("/".join("*" if rng.random() < 0.4 else x for x in segs))
+        strings = sorted(strings)
+        r = pool.call({"cmd": "typing", "strings": strings}, 0)
+        bad = [(s, t, m.natural_type(s) or "") for s, t in zip(strings, r["types"]) if (m.natural_type(s) or "") != t]
+        print("model selftest: %d strings typed, %d disagreements" % (len(strings), len(bad)))
+        for b in bad[:5]:
+            print("  string=%r real=%r model=%r" % b)
+        return 2 if bad else 0
+    finally:
+        pool.close()
+
+
 def main(args):
     try:
+        if args.what == "model":
+            return model_selftest(args)
         if args.what == "smoke":
             return smoke(args)
         if args.what == "determinism":
